@@ -70,6 +70,10 @@ def check(run):
         pairs = must + rng.sample(pairs, 1200)
     elif len(pairs) > 60000:
         pairs = rng.sample(pairs, 60000)
+    # operands that are special in the evaluator's INTERNAL representation (k * R^-1: a tiny Montgomery form) or sit on a limb
+    # boundary of the modulus — ordinary-looking 254-bit numbers on which a fast path keyed on raw limbs would fire
+    special = gen.MONTGOMERY_SMALL + gen.NEAR_MODULUS[:: (7 if quick else 1)]
+    pairs += [(a, b) for a in special for b in special] + [(a, b) for a in special for b in (1, 2, 3, P - 1)] + [(a, b) for b in special for a in (1, 7, P - 1)]
     for name in OPS:
         for a, b in pairs:
             if name == "Pow" and b > 2 ** 64:
@@ -96,7 +100,7 @@ def check(run):
         lines.append(f"tres {hex(a)} {hex(b)} {hex(c)}")
         lines.append(f"tresu {hex(a)} {hex(b)} {hex(c)}")
     lines = list(dict.fromkeys(lines))
-    run.rules.append("every operator (Montgomery evaluator `op`, integer evaluator `opu`) on the boundary grid {0,1,2,2^k-1,2^k,2^k+1,(p-1)/2-1,(p-1)/2,(p+1)/2,(p+1)/2+1,p-2,p-1}^2 (k over the tier's set; quick: all 49 pairs of the 7 extreme values plus a seeded slice), random operands, every shift count class; distinct = distinct (operator, operands) line")
+    run.rules.append("every operator (Montgomery evaluator `op`, integer evaluator `opu`) on the boundary grid {0,1,2,2^k-1,2^k,2^k+1,(p-1)/2-1,(p-1)/2,(p+1)/2,(p+1)/2+1,p-2,p-1}^2 (k over the tier's set; quick: all 49 pairs of the 7 extreme values plus a seeded slice), operands that are small in Montgomery form (k/R) or on a limb boundary of p, random operands, every shift count class; distinct = distinct (operator, operands) line")
     # chunks: a crash of the harness process would lose the rest of a chunk
     seqs = [[l] for l in lines]
     from lib import gen as _gen
